@@ -253,7 +253,7 @@ def locksStep (s : DrvState) (line : String) : DrvState × String :=
   | ["xwcc", w, h, order] => match w.toNat?, h.toNat?, parseSetMap order with
       | some w, some h, some adj => (s, toString (wouldCreateCycle adj w h))
       | _, _, _ => bad
-  -- stateless sweep of an explicit lock table: `release_orphaned_locks`
+  -- the coordinator model (`CoordModel.lean`): `cinit` resets it, every `c*` verb is one `CoOp`
   | ["cinit", to, mc] => match to.toNat?, mc.toNat? with
       | some to, some mc => ({ s with co := Coord.init to mc }, "ok")
       | _, _ => bad
